@@ -213,7 +213,13 @@ func check(c *Case) (msg string, full bool, nontrivial bool) {
 		fw.Write(c.Line)
 		fw.Write([]byte("{\"level\":\"warn\",\"lost\":\"" + strings.Repeat("x", 40) + "\"}\n"))
 	}
-	// ... nor one that a callback of the program refused (FormatPrepare / FormatExtra returning an error)
+	// ... and neither must events that were delivered: differently shaped lines (every part
+	// present, none present, many fields, nested values, another level/time/caller, a broken
+	// line) go through the same writer before the event is rendered again
+	for _, other := range historyLines {
+		w.Write([]byte(other))
+	}
+	// ... nor, last thing before the event is rendered again, one that a callback of the program refused (FormatPrepare / FormatExtra returning an error)
 	{
 		fw := w
 		fw.Out = io.Discard
@@ -222,12 +228,6 @@ func check(c *Case) (msg string, full bool, nontrivial bool) {
 		fw.FormatPrepare = nil
 		fw.FormatExtra = func(map[string]interface{}, *bytes.Buffer) error { return fmt.Errorf("nor this one") }
 		fw.Write([]byte(`{"level":"warn","refused":"by FormatExtra","yy":2,"error":"e"}` + "\n"))
-	}
-	// ... and neither must events that were delivered: differently shaped lines (every part
-	// present, none present, many fields, nested values, another level/time/caller, a broken
-	// line) go through the same writer before the event is rendered again
-	for _, other := range historyLines {
-		w.Write([]byte(other))
 	}
 	out.Reset()
 	w.Write(c.Line)
